@@ -100,6 +100,13 @@ def gen_nearmiss(seed, i):
              ({"select": ["?" + m0, "?" + m1]}, {"select": ["?" + m1, "?" + m0]}),
              ({"select": ["?" + m0]}, {"select": [m0]}),
              ({"disable": [m0]}, {"select": ["?" + m0]}),
+             # the same names in other roles: selected vs disabled, split differently between the two lists
+             ({"select": [m0]}, {"disable": [m0]}),
+             ({"select": ["?" + m0], "disable": [m1]}, {"select": ["?" + m0, "?" + m1]}),
+             ({"define": [v + "+=a", v + "+=b"]}, {"define": [v + "+=a b"]}),
+             ({"define": [v + "+=a b"]}, {"define": [v + "=a b"]}),
+             ({"builders": builders[:1]}, {"builders": builders[:1] + builders[1:2]}),
+             ({"apps": apps[:1]}, {"apps": apps}),
              ({}, {"partition": "count:1/2"}), ({"partition": "count:1/2"}, {"partition": "count:2/2"}), ({"partition": "count:1/2"}, {"partition": "hash:1/2"}),
              ({"builders": builders[:1]}, {"builders": builders}),
              # a partition is a slice of the tuple sequence *after* selection: a narrower selection re-slices
@@ -475,7 +482,7 @@ def run(chk):
                 "change; an identical re-run hits; per event, hit/miss, cache presence and ninja completeness are compared with the protocol model; "
                 "non-trivial = the final run is a hit after >=1 earlier event besides the first run; distinct by scenario hash")
     scs = [c["scenario"] for c in common.load_corpus("C08") if "scenario" in c] + [gen_history(chk.seed, i, maxlen) for i in range(n)] + \
-        [gen_nearmiss(chk.seed, i) for i in range(24 if chk.tier == "quick" else 600)]
+        [gen_nearmiss(chk.seed, i) for i in range(40 if chk.tier == "quick" else 800)]
     for sc, res in common.parallel_map(worker, scs):
         judge(chk, sc, res)
     chk.assumptions = ["stamps are (len, mtime): every edit of the harness changes mtime", "kill = _exit at a hook point (unflushed buffers lost); power loss / fsync ordering not modelled",
